@@ -172,5 +172,12 @@ def r3(ctx):
     ctx.check('measurement|from-collect_response', len(srcs) == 1 and all(full(RESULT).match(x) for x in srcs), 'measurements are taken from %s' % [x[-100:] for x in srcs], sample=len(srcs))
 
 
-RULES = [r1, r2, r3]
-FLOORS = {'C44-R2': 60, 'C44-R3': 9}
+def r4(ctx):
+    ctx.rule('C44-R4', 'the parse gate the client relies on (same as C45-R4): CsptpMessage::deserialize is Ok only for sdoId 0x300, major version 2, and a FollowUp or a Sync with '
+             'exactly one valid request/response TLV')
+    from rules.C45 import wellformed_gate
+    wellformed_gate(ctx)
+
+
+RULES = [r1, r2, r3, r4]
+FLOORS = {'C44-R2': 60, 'C44-R3': 9, 'C44-R4': 13}
